@@ -174,12 +174,27 @@ def run(chk):
                     break
             continue
         wj, sph = area_world(rng, spherical=False, cross=True)
+        if gi % 7 == 3:
+            # two slabs hanging from one trench line, dipping to opposite sides, each with its own mass conserving model (different
+            # ridges): neighbouring grid nodes ask the two models in turn, in an order that depends on how the nodes are divided
+            tx = 0.0
+            def mc(side, rd, vel):
+                return {"model": "subducting plate", "name": "s%d" % side, "coordinates": [[tx, -6e5], [tx, 6e5]], "dip point": [tx + side * 1e6, 0.0],
+                        "segments": [{"length": 5e5, "thickness": [1e5], "top truncation": [-5e4], "angle": [45.0]}],
+                        "temperature models": [{"model": "mass conserving", "spreading velocity": vel, "subducting velocity": vel,
+                                                "ridge coordinates": [[[tx - side * rd, -8e5], [tx - side * rd, 8e5]]], "coupling depth": 8e4, "taper distance": 1e5,
+                                                "min distance slab top": -2e5, "max distance slab top": 3e5,
+                                                "reference model name": "half space model" if side > 0 else "plate model"}],
+                        "composition models": [{"model": "uniform", "compositions": [0 if side > 0 else 1]}]}
+            wj = {"version": "1.1", "cross section": [[0.0, 0.0], [6e5, 0.0]], "features": [mc(1, 2.5e6, 0.05), mc(-1, 4e5, 0.03)]}
         # a layer under everything with a velocity, so that the 3-component data set is not all zero
         wj["features"].insert(0, {"model": "mantle layer", "name": "flow", "coordinates": [[-1e6, -1e6], [1e6, -1e6], [1e6, 1e6], [-1e6, 1e6]],
                                   "velocity models": [{"model": "uniform raw", "velocity": [0.01, -0.02, 0.03]}]})
         sanitize_numbers(wj)
         dim = 3 if gi % 2 == 0 else 2
         nx, ny, nz = rng.choice([(6, 4, 4), (10, 2, 6), (4, 4, 2)])
+        if gi % 7 == 3:
+            dim, nx, ny, nz = 2, 32, 2, 16
         grid = ["grid_type = cartesian", "dim = %d" % dim, "compositions = 2", "vtu_output_format = ASCII",
                 "x_min = -4e5", "x_max = 4e5", "y_min = -4e5", "y_max = 4e5", "z_min = 6e5", "z_max = 1000e3",
                 "n_cell_x = %d" % nx, "n_cell_y = %d" % ny, "n_cell_z = %d" % nz]
